@@ -288,7 +288,7 @@ def playback(h, replay_dir, log_dir):
         return (log, None, "playback generation timed out")
     text = open(log, errors="replace").read()
     tests = re.findall(r"```\n(.*?)```", text, re.S)
-    tests = [t for t in tests if "kani_concrete_playback" in t]
+    tests = [t for t in tests if "kani_concrete_playback" in t and "Check for `cover`" not in t]
     path = os.path.join(replay_dir, h.name + ".rs")
     if not tests:
         open(path, "w").write("// Kani produced no concrete playback test; see log " + log + "\n")
